@@ -1,10 +1,24 @@
 from common import *
 
+
+def _finding_flags():
+    """The scenarios that exhibit a known finding run only once the finding is listed in
+    known_findings.json (otherwise they would be reported as violations)."""
+    import vlib
+    known = {k["pattern"] for k in vlib.load_known() if k["property"] == "C06" and k["status"] == "known"}
+    flags = []
+    for pat, flag in (("C06-udp-zero-checksum", "-udpzero"), ("C06-ping6-no-pseudo-header", "-ping6"),
+                      ("C06-ndp-solicit-zero-src-mac", "-ndpmac")):
+        if pat in known:
+            flags.append(flag)
+    return flags
+
+
 SPEC = dict(
     id="C06", corr="Corr.C06", driver="h_c06", overlay=True,
     targets=["Properties/C06.vo", "Corr/C06.vo"],
-    args=lambda tier, seed: ["-seed", seed, "-n", 1 if tier == "quick" else 8, "-routes", 60 if tier == "quick" else 150],
-    search_args=lambda seed: ["-seed", seed, "-n", 1, "-routes", 100],
+    args=lambda tier, seed: ["-seed", seed, "-n", 1 if tier == "quick" else 8, "-routes", 60 if tier == "quick" else 150] + _finding_flags(),
+    search_args=lambda seed: ["-seed", seed, "-n", 1, "-routes", 100] + _finding_flags(),
     shard=90, timeout=2400, search_rounds=2,
     patterns={2: "C06-udp-zero-checksum", 3: "C06-ping6-no-pseudo-header", 4: "C06-ndp-solicit-zero-src-mac"},
     rule="every frame captured at the link layer of real stacks driven through a scenario sweep, one case per frame with the scenario's identity "
